@@ -27,6 +27,15 @@ theorem verdict :
 #print axioms refutes_unclamped
 #print axioms refutes_separator
 #print axioms refutes_no_plus_one
+#print axioms second_call_sound
+#print axioms stale_cache_witness
+#print axioms refutes_stale_cache
+#print axioms island_zero_panics
+#print axioms route_partition
+#print axioms every_name_routed
+#print axioms routing_gap_witness
+#print axioms routing_overlap_witness
+#print axioms refutes_unvalidated
 #print axioms Hv.Name.canon_collision
 #print axioms Hv.Name.load_canon
 #print axioms Hv.Name.hexDigits_inj
